@@ -531,8 +531,13 @@ func RunAllMulti(run *hlib.Run, sigPrefixes []string, n int) {
 			seeds = append(seeds, run.Seed*1000003+900000+uint64(i))
 		}
 	}
+	hangs := 0
 	for idx, s := range seeds {
 		if !run.Mine(idx) {
+			continue
+		}
+		if hangs >= 6 {
+			run.Count("skipped-after-repeated-hangs")
 			continue
 		}
 		sc := GenMulti(s)
@@ -540,6 +545,9 @@ func RunAllMulti(run *hlib.Run, sigPrefixes []string, n int) {
 		res := RunMulti(sc)
 		life.Breadcrumb(run.OutDir, "")
 		desc := "gm " + strconv.FormatUint(s, 10) + " # " + sc.String()
+		if res.Hang != "" {
+			hangs++
+		}
 		if res.NewErr != "" {
 			run.Count("multi-group-not-created")
 			run.Case(desc + " => " + res.NewErr)
